@@ -1056,6 +1056,16 @@ def link_step(sx, llc, name, sock_addr, peer):
             return pdu.ReceiveReady(sock_addr, peer, int(n[3:]))
         if n.startswith("I:"):
             return pdu.Information(sock_addr, peer, int(n[2:]), 0, b"hi")
+        # connection-mode PDUs from a source address that has no connection
+        # with this service access point (a stray or forged PDU)
+        if n.startswith("Ix:"):
+            return pdu.Information(sock_addr, peer + 7, int(n[3:]), 0, b"hi")
+        if n.startswith("RRx:"):
+            return pdu.ReceiveReady(sock_addr, peer + 7, int(n[4:]))
+        if n == "DISCx":
+            return pdu.Disconnect(sock_addr, peer + 7)
+        if n == "CCx":
+            return pdu.ConnectionComplete(sock_addr, peer + 7, 128, 1)
         raise ValueError(n)
 
     def step():
@@ -1078,7 +1088,10 @@ APP_CASES = {
     "sendq": {"DISC": "back", "DM": "back", "FRMR": "back", "I:5": "back", "SYMM": "back"},
     "recv": {"DISC": "back", "DM": "back", "FRMR": "back", "I:0": "back",
              "SYMM": "asleep", "CC": "asleep"},
-    "accept": {"SYMM": "asleep", "CC": "asleep", "DM": "asleep"},
+    "accept": {"SYMM": "asleep", "CC": "asleep", "DM": "asleep",
+               # only a CONNECT belongs into the backlog of a listening socket
+               "Ix:0": "asleep", "RRx:0": "asleep", "DISCx": "asleep", "CCx": "asleep",
+               "Ix:0+RRx:1": "asleep"},
     "connect": {"DM": "back", "CC": "back", "SYMM": "asleep", "DISC": "asleep"},
     # connect() and then recv() on the connection
     "connect+recv": {"CC,I:0": "back", "CC+CC,I:0": "back", "CC+DM,I:0": "back",
